@@ -1,38 +1,12 @@
 import JadeModel.Proofs.SystemGate
 import JadeModel.Proofs.SystemRows
+import JadeModel.Proofs.SystemProgressDefs
+import JadeModel.Proofs.SystemProgressAStep
+import JadeModel.Proofs.SystemProgressQStep
 
 set_option linter.unusedSimpArgs false
 
-/-! Progress of submitter rounds (C05): a round that starts when every recorded batch has ended ends with
-    the completion decision or with a batch that was handed to the HPC after that moment. -/
-
 namespace Jade.Sys
-
-macro "frame_prog" : tactic => `(tactic|
-  try simp only [freshHid_some_iff, holderPend, holderBidx, holderSub, Orphan, procs_setSub, procs_setNode,
-    procs_setProc, setSub_fields, setNode_fields, setProc_fields, holds_iff] at *)
-
-/-- bookkeeping facts that hold in every reachable state -/
-structure ProgA (s : Sys) : Prop where
-  /-- an id on disk / in a holder's queue was returned by sbatch -/
-  diskIds : ∀ h ∈ s.disk.ids, s.slurm h ≠ none
-  outIds : ∀ q a y, s.procs q = .sub a y → ∀ h ∈ y.out, s.slurm h ≠ none
-  /-- a batch is never empty and contains configured jobs only -/
-  batchJobs : ∀ B ∈ s.batches, B.jobs ≠ [] ∧ ∀ j ∈ B.jobs, j < s.sc.n
-  /-- after `update_job_status` the copy's active ids are the queue's -/
-  persistedIds : ∀ q a y, s.procs q = .sub a y → y.pc = .persisted → y.loc.ids = y.out
-
-theorem progA_init (sc : Scn) : ProgA (init sc) := by
-  refine ⟨?_, ?_, ?_, ?_⟩ <;> simp [init]
-
-set_option maxHeartbeats 8000000 in
-theorem progA_step {s s' : Sys} {op : Op} (hi : ProgA s) (h : step s op = some s') : ProgA s' := by
-  have hsc := sc_step h
-  obtain ⟨a1, a2, a3, a4⟩ := hi
-  cases op <;> step_cases h <;> (refine ⟨?_, ?_, ?_, ?_⟩ <;> frame_prog)
-  all_goals first
-    | proc_clause
-    | grind [SubP.load, persistStatus, find?_hid]
 
 theorem progA_run {s s' : Sys} (ops : List Op) (hi : ProgA s) (h : run s ops = some s') : ProgA s' := by
   induction ops generalizing s with
@@ -42,32 +16,6 @@ theorem progA_run {s s' : Sys} (ops : List Op) (hi : ProgA s) (h : run s ops = s
     split at h
     · next s1 hs => exact ih (progA_step hi hs) h
     · cases h
-
-/-- the pcs between the scheduler poll and the removal of the marker -/
-def polled : SPc → Bool
-  | .collecting => true
-  | .ready => true
-  | .marked => true
-  | .persisted => true
-  | _ => false
-
-/-- relative to a reference moment: `D h` = batch `h` had ended then, `N h` = id `h` did not exist then -/
-structure ProgQ (D N : Hid → Prop) (s : Sys) : Prop where
-  dead : ∀ h, D h → s.slurm h = some .ended
-  fresh : ∀ h, s.slurm h = none → N h
-  diskOld : ∀ h ∈ s.disk.ids, D h ∨ N h
-  outOld : ∀ q a y, s.procs q = .sub a y → holds y.pc = true → ∀ h ∈ y.out, D h ∨ N h
-  /-- after its poll a round never believes a batch active that had ended at the reference moment -/
-  outLive : ∀ q a y, s.procs q = .sub a y → polled y.pc = true → ∀ h ∈ y.out, ¬ D h
-
-set_option maxHeartbeats 8000000 in
-theorem progQ_step {D N : Hid → Prop} {s s' : Sys} {op : Op} (hi : ProgQ D N s) (h : step s op = some s') :
-    ProgQ D N s' := by
-  obtain ⟨a1, a2, a3, a4, a5⟩ := hi
-  cases op <;> step_cases h <;> (refine ⟨?_, ?_, ?_, ?_, ?_⟩ <;> frame_prog)
-  all_goals first
-    | proc_clause
-    | grind [SubP.load, persistStatus, find?_hid, polled, activeB]
 
 theorem progQ_run {D N : Hid → Prop} {s s' : Sys} (ops : List Op) (hi : ProgQ D N s) (h : run s ops = some s') :
     ProgQ D N s' := by
